@@ -39,9 +39,19 @@ import (
 
 // Obs is handed to Check so the oracle can classify the case it executed.
 type Obs struct {
-	labels     []string
-	nontrivial bool
-	note       string
+	labels       []string
+	nontrivial   bool
+	note         string
+	inconclusive string
+}
+
+// Inconclusive marks the case as neither passed nor failed (e.g. a time-dependent
+// observation that did not reproduce); the driver turns any such case into exit 2.
+func (o *Obs) Inconclusive(why string) {
+	if o != nil {
+		o.inconclusive = why
+		o.labels = append(o.labels, "INCONCLUSIVE:"+why)
+	}
 }
 
 // Label counts the case under a named class (measured, reported in evidence).
